@@ -9,15 +9,15 @@
      in call order, the exception class, the class skeleton, the exact value (exact scalar functions) / the selected
      eigenvalues, and its verdict "this value is / is not the true one";
   2. MC_AutoChoice: on every (entry point, facts) combination TLC decides AutoTotal, AutoUnique, AutoContractSmall,
-     AutoContractLarge, AutoContractPSD, AutoMatchesDoc, DiagChoiceSound, AutoOptsForwardExceptEig and prints the chosen
-     algorithm class and the exception of the hand-over;
+     AutoContractLarge, AutoContractPSD, AutoMatchesDoc, DiagChoiceSound, AutoOptsForward and prints the chosen
+     algorithm class, the exception of the hand-over and the option names that are passed on;
   3. replay through the real library with a recorder on plum's Function.resolve_method (the original is still called):
      rules fired, exception class, skeleton, values, selected eigenvalues; for Auto: the algorithm class handed over to, on
      real operators on both sides of the 1e6 switch (the replay aborts right after the hand-over has been resolved on
      operators with more than 64 entries: only the selection is compared).  A mismatch is MODEL-DRIFT ("drift");
   4. negative controls: wrong variants selected by the constants Mutant / AutoMutant must violate the matching invariant;
-  5. defect witnesses: statements without their domain restriction (UnaryRuleSoundEverywhere, PowKronSoundEverywhere,
-     PowIntCompleteEverywhere, EigRuleSoundEverywhere, AutoOptsForward) are expected to be violated; states where TLC says
+  5. defect witnesses: statements without their domain restriction (PowKronSoundEverywhere, EigRuleSoundEverywhere) are
+     expected to be violated; states where TLC says
      "the rule's value is not the true value" and the real code returns exactly the model's value are listed in
      "code_defect_witnesses" (see findings/unary-eig-auto-defects.py).
 
@@ -42,13 +42,15 @@ from . import rulesfam as rf
 U_INVARIANTS = ("Emit", "ShapeConsistent", "SpecGInv", "UnaryRuleSound", "PowFracSound", "PowKronDomain", "PowIntSound",
                 "PowIntComplete", "ExpKronSumSound", "EigRuleSound")
 A_INVARIANTS = ("Emit", "AutoTotal", "AutoUnique", "AutoContractSmall", "AutoContractLarge", "AutoContractPSD",
-                "AutoMatchesDoc", "DiagChoiceSound", "AutoOptsForwardExceptEig")
+                "AutoMatchesDoc", "DiagChoiceSound", "AutoOptsForward")
 
 # (model, mutant, invariant that must be violated)
 NEGATIVE_CONTROLS = [
     ("U", "UnaryBlockNoMult", "UnaryRuleSound"),
     ("U", "UnaryTransposeAsAdjoint", "UnaryRuleSound"),
     ("U", "UnaryIdentityNoF", "UnaryRuleSound"),
+    ("U", "UnaryAdjointNoConj", "UnaryRuleSound"),          # the behaviour before fix 415da5a
+    ("U", "PowKronNoSquareGuard", "PowIntComplete"),        # the behaviour before fix 32ca66c
     ("U", "PowKronAsKronSum", "PowFracSound"),
     ("U", "WindNoCarry", "PowKronDomain"),
     ("U", "PowIntOffByOne", "PowIntSound"),
@@ -65,9 +67,11 @@ NEGATIVE_CONTROLS = [
     ("A", "EigNoPower", "AutoMatchesDoc"),
     ("A", "UnaryUsesSA", "AutoMatchesDoc"),
     ("A", "DiagSwitch1e6", "DiagChoiceSound"),
+    ("A", "EigPowerForwardAll", "AutoOptsForward"),         # the behaviour before fix 00e9d62
 ]
-DEFECT_WITNESSES = [("U", "UnaryRuleSoundEverywhere"), ("U", "PowKronSoundEverywhere"), ("U", "PowIntCompleteEverywhere"),
-                    ("U", "EigRuleSoundEverywhere"), ("A", "AutoOptsForward")]
+# (UnaryRuleSoundEverywhere, PowIntCompleteEverywhere and AutoOptsForward were witnesses of defects repaired by the fix
+# commits 415da5a, 32ca66c, 00e9d62 of /repo: they are unconditional invariants now and the old behaviours are mutants)
+DEFECT_WITNESSES = [("U", "PowKronSoundEverywhere"), ("U", "EigRuleSoundEverywhere")]
 
 
 # ---------------------------------------------------------------------------------------------
@@ -226,6 +230,14 @@ class _Handover(BaseException):
     """Raised by the recorder right after the resolution that follows an Auto rule (only the selection is observed)."""
 
 
+def _alg_attrs(a):
+    """Option values carried by an algorithm object (what an Auto rule handed over)."""
+    from cola.linalg.algorithm_base import Algorithm
+    if not isinstance(a, Algorithm):
+        return None
+    return {k: ("array" if isinstance(v, np.ndarray) else repr(v)) for k, v in vars(a).items()}
+
+
 def install_recorder2():
     if _R["installed"]:
         return
@@ -247,7 +259,8 @@ def install_recorder2():
         if ev is not None and isinstance(target, tuple):
             n = _R["names"].get(id(self))
             if n is not None and len(ev) < 400:
-                ev.append((n, rf.sig_name(n, res[2]), tuple(type(a).__name__.split("[")[0] for a in target)))
+                ev.append((n, rf.sig_name(n, res[2]), tuple(type(a).__name__.split("[")[0] for a in target),
+                           tuple(_alg_attrs(a) for a in target)))
                 stop = _R["stop"]
                 if stop is not None and stop(ev):
                     raise _Handover()
@@ -384,6 +397,26 @@ def _multiset_close(got, want, tol):
     return True
 
 
+def _has_kind(t, kind):
+    return t["k"] == kind or any(_has_kind(x, kind) for x in t["a"])
+
+
+def _leaf_on_cut(t):
+    """Some leaf has an eigenvalue on the closed negative real axis."""
+    if t["a"]:
+        return any(_leaf_on_cut(x) for x in t["a"])
+    p = t["p"]
+    if "sp" in p:
+        vals = [rf.qcomplex(x) for x in p["sp"]["lam"]]
+    elif "v" in p:
+        vals = [complex(x[0], x[1]) for x in p["v"]]
+    elif "c" in p:
+        vals = [rf.qcomplex(p["c"])]
+    else:
+        vals = [1.0 + 0j] if t["k"] == "Identity" else []
+    return any(z.imag == 0 and z.real <= 0 for z in vals)
+
+
 def _false_annotation(op):
     """Some part of the real result is declared SelfAdjoint although its matrix is not Hermitian."""
     import cola
@@ -437,6 +470,7 @@ def observe_u(c):
     lams = [rf.qcomplex(s["lam"]) for s in c["spec"]]
     on_cut = any(z.imag == 0 and z.real <= 0 for z in lams)
     mags = sorted({round(abs(z), 12) for z in lams}, reverse=True)
+    has_adjoint, leaf_cut = _has_kind(t, "Adjoint"), on_cut or _leaf_on_cut(t)
     slow_power = len(mags) > 1 and mags[0] > 0 and mags[1] / mags[0] > 0.85
     for m in c["un"]:
         cid = m["id"]
@@ -474,8 +508,10 @@ def observe_u(c):
                                          "cola": np.round(dense, 6).tolist().__repr__()[:200]})
         elif through_eig and repeated:
             skip("eig_route_repeated_eigenvalue")    # KF-C09-eig-repeated-eigenvalue (LAPACK geev eigenvectors)
-        elif through_eig and on_cut and m["f"] in ("sqrt", "isqrt"):
-            skip("branch_cut_rounding")              # floating-point eigenvalue -4 +- 0j: the sign of zero picks the branch
+        elif (through_eig or has_adjoint) and leaf_cut and m["f"] in ("sqrt", "isqrt"):
+            # an eigenvalue on the branch cut: the sign of its zero imaginary part picks the branch (floating-point
+            # eigenvalue -4 +- 0j of the dense route; conj(-4+0j) = -4-0j inside the Adjoint rule)
+            skip("branch_cut_signed_zero")
         elif _false_annotation(val):
             skip("false_annotation_on_result")       # KF-C05-scalar-annotations: (1+2j) * I is declared self-adjoint
         else:
@@ -598,16 +634,39 @@ def _auto_thunk(fn, F, A, alg):
     raise ValueError(fn)
 
 
+_DEF = {}
+
+
+def _defaults(name):
+    """Option values of a freshly constructed algorithm object of class `name` (None if it cannot be built)."""
+    if name not in _DEF:
+        import cola
+        from cola.linalg.inverse.pinv import LSTSQ
+        from cola.linalg.svd.svd import DenseSVD
+        from cola.linalg.unary.unary import Eig, Eigh
+        from cola.linalg.trace.diagonal_estimation import Exact, Hutch
+        from cola.linalg.eig.power_iteration import PowerIteration
+        L = cola.linalg
+        cls = {"CG": L.CG, "GMRES": L.GMRES, "Lanczos": L.Lanczos, "Arnoldi": L.Arnoldi, "PowerIteration": PowerIteration,
+               "Hutch": Hutch, "Exact": Exact, "Cholesky": L.Cholesky, "LU": L.LU, "Eig": Eig, "Eigh": Eigh,
+               "DenseSVD": DenseSVD, "LSTSQ": LSTSQ}.get(name)
+        try:
+            _DEF[name] = _alg_attrs(cls()) if cls else None
+        except Exception:  # noqa: BLE001
+            _DEF[name] = None
+    return _DEF[name]
+
+
 def _handover(ev, base):
     """(index of the Auto rule's event, algorithm class handed over to | None)."""
-    for i, (fname, sig, classes) in enumerate(ev):
+    for i, (fname, sig, classes, _) in enumerate(ev):
         if fname == base and "Auto" in classes and ",Auto" in sig:
             pos = classes.index("Auto")
-            for fname2, sig2, classes2 in ev[i + 1:]:
+            for fname2, sig2, classes2, attrs2 in ev[i + 1:]:
                 if fname2 == base and len(classes2) == len(classes):
-                    return i, classes2[pos]
-            return i, None
-    return None, None
+                    return i, classes2[pos], attrs2[pos]
+            return i, None, None
+    return None, None, None
 
 
 def observe_a(c):
@@ -643,7 +702,7 @@ def observe_a(c):
         if any("Auto" in e[2] and ",Auto" in e[1] for e in ev):
             D("selection", "no Auto rule", [e[1] for e in ev][:6])
         return out
-    i, chosen = _handover(ev, base)
+    i, chosen, attrs = _handover(ev, base)
     if i is None:
         # the call was refused before the Auto rule was reached (e.g. trace asserts a square operand)
         out["skips"]["refused_before_auto:" + exc] = out["skips"].get("refused_before_auto:" + exc, 0) + 1
@@ -659,6 +718,15 @@ def observe_a(c):
     out["handover"][f"{base}->{chosen}"] = 1
     if chosen != c["alg"]:
         D("selection", c["alg"], chosen)
+        return out
+    # exactly the options the model says are passed on arrive in the algorithm object, with the values given to Auto
+    given = {k: ("array" if isinstance(v, np.ndarray) else repr(v)) for k, v in vars(alg).items()}
+    rename = {"max_iters": "max_iter"} if chosen == "PowerIteration" else {}
+    want = {rename.get(k, k): v for k, v in given.items() if rename.get(k, k) in c["passed"]}
+    fresh = _defaults(chosen)
+    got = {k: v for k, v in (attrs or {}).items() if k in want or (fresh is not None and fresh.get(k) != v)}
+    if got != want:
+        D("options_passed", want, got)
     return out
 
 
